@@ -17,7 +17,7 @@ ASSUMPTIONS = [
     'granularity: statement boundaries, the evaluate/store split of assignments whose value is a call, and "inside the target"; opcode-level points inside one statement are not generated',
     'L1 (the exception is raised in the thread that runs the target): foreign_raise(self._ident, ...) with _ident recorded by the run function - structural, the injection happens in that function\'s own AST',
     'L3 (the child reaches exit after the landing; terminate() then returns True) rests on T4/T5 and a cooperative target; wall-clock "within the timeout" is T9',
-    'remote kinds: _run_backend is not yet under injection in this round (its outer finally is expected to lose the outcome at some points, design probe P-20)',
+    'remote kind: _run_backend is under injection from the point where the backend has reported its identity and got the go-ahead (a parent-initiated terminate cannot land earlier); the server-side relay of the request and the front-end thread of the parent are not under injection',
 ]
 MUTANTS = [
     ('pyworkers/thread.py', "        except BaseException as e:\n            logger.exception('Exception occurred while running the main function')\n            self._result = (False, e)",
@@ -27,23 +27,43 @@ MUTANTS = [
     ('pyworkers/process.py', "            result = self.do_work()\n            self._comms.child_end.put(((True, result), self._user_state))\n        except Exception as e:",
      "            result = self.do_work()\n        except Exception as e:", None),
 ]
-MUTANTS = [m for m in MUTANTS if m[3] is not None]
+MUTANTS = [m for m in MUTANTS if m[3] is not None] + [
+    ('pyworkers/remote.py', "                logger.exception('Exception occurred while running the main function')\n                result = (False, e)\n            finally:\n                if self._ctrl_thread_loc.is_alive():",
+     "                logger.exception('Exception occurred while running the main function')\n            finally:\n                if self._ctrl_thread_loc.is_alive():", 'remote backend forgets the exception that ended the target (also the WorkerTerminatedError)'),
+]
 
 
 def build(ex):
     workers.install(ex)
+    from pyvc.contracts import InjectCfg
+    from .workers import RW, W
+    import ast as _ast
+    tl = 0
+    for n in _ast.walk(ex.repo.func(RW + '._run_backend').node):
+        # the statement in which the backend waits for the server's go-ahead after reporting its identity: the parent's constructor returns
+        # only after that report, so a terminate requested by the parent cannot land earlier
+        if isinstance(n, _ast.Assign) and 'unused_sync' in _ast.unparse(n.targets[0]) and not tl:
+            tl = n.lineno
+
+    def region(interp, st, fr):
+        if fr.fi.name == '_run_backend':
+            return st.lineno > tl
+        return True
+    remote = childrun.backend_run_contract(ex, 'L2r', 'C03', inject=InjectCfg([RW + '._run_backend', W + '.do_work', W + '.run'], budget=1, kinds=('wte',),
+                                                                              region=region, split_store=True))
     return [(childrun.process_run_injected(ex, 'L2p', 'C03'), None),
-            (childrun.thread_run_injected(ex, 'L2t', 'C03'), None)]
+            (childrun.thread_run_injected(ex, 'L2t', 'C03'), None),
+            (remote, None)]
 
 
 def scenario_from(ob):
     inj = (ob.get('info') or {}).get('injections') or []
-    kind = 'process' if 'L2p' in ob['lemma'] or 'process' in ob['func'] else 'thread'
+    kind = 'remote' if 'L2r' in ob['lemma'] else 'process' if 'L2p' in ob['lemma'] or 'process' in ob['func'] else 'thread'
     sc = {'kind': kind, 'points': []}
     for rec in inj:
         what, func, line, text, phase = rec
         sc['points'].append({'func': func.split('.')[-1], 'text': text, 'phase': 'after' if phase == 'store' else 'before',
-                             'file': 'process.py' if kind == 'process' else 'thread.py'})
+                             'file': {'process': 'process.py', 'remote': 'remote.py'}.get(kind, 'thread.py')})
     return sc
 
 
